@@ -125,6 +125,16 @@ LinkedOK(r) ==
                    IN  p.status = "ok" /\ ~FlgIndep(p.flg) /\ p.content = r.content /\ r.delivered = r.content)
     /\ (~r.small => r.ref.status = "ok" /\ r.ref.sameContent)
 
+\* Completeness on composed sources (beyond the listed properties, run with C02): skippable frames before a
+\* frame, concatenated legacy frames, the kernel-style trailer, bytes trailing a frame.  Whatever the frame
+\* specification accepts the Reader delivers, and it consumes exactly the bytes of the frame.
+CompleteOK(r) ==
+    /\ r.outcome \in {"clean", "error"}
+    /\ IF r.small
+       THEN LET p == ParseLenient(r.bytes)
+            IN  p.status = "ok" => r.outcome = "clean" /\ r.delivered = p.content /\ r.consumed = p.consumed
+       ELSE r.ref.status = "ok" => r.outcome = "clean" /\ r.ref.sameContent /\ r.consumed = r.ref.consumed
+
 RefOK(r) ==
     LET p == Parse(r.bytes, r.strict)
     IN  /\ p.status = r.status /\ p.content = r.content /\ p.consumed = r.consumed
@@ -141,6 +151,7 @@ RecordOK(r) ==
                              [] Prop = "C07" -> SafeOK(r)
                              [] Prop = "C15" -> FaultOK(r)
                              [] Prop = "C16" -> LinkedOK(r)
+                             [] Prop = "C02" -> CompleteOK(r)
                              [] OTHER -> TRUE)
 
 TraceInit == l = 1
